@@ -144,6 +144,7 @@ class Report:
         self.known = []
         self.undecided = []
         self.crashes = []
+        self.cross = {}
         self.lines = []
 
     def say(self, s):
@@ -178,7 +179,8 @@ def check_property(prop, tier='quick', seed=0):
     rep = Report(prop, tier, seed)
     opts = {'query_timeout_ms': 10000 if tier == 'quick' else 60000,
             'branch_timeout_ms': 5000 if tier == 'quick' else 20000,
-            'proof_wall_limit_s': 420 if tier == 'quick' else 3600}
+            'proof_wall_limit_s': 420 if tier == 'quick' else 3600,
+            'cross_check': tier != 'quick'}
     known = load_known()
     kf = [k for k in known.get('findings', []) if k['property'] == prop]
 
@@ -222,6 +224,12 @@ def check_property(prop, tier='quick', seed=0):
         trusted.update(r.get('assumes', []))
         trusted.update(r.get('trusted', []))
         inlined.update(r.get('inlined', []))
+        for obn, verdict in (r.get('cross_check') or {}).items():
+            rep.cross[verdict] = rep.cross.get(verdict, 0) + 1
+            if verdict == 'sat':
+                rep.crashes.append('%s.%s: solver disagreement on %s: z3 '
+                                   'unsat, cvc5 sat' % (r['module'],
+                                                        r['proof'], obn))
         if not any(e[0] != 'crash' for e in r['errors']):
             for v in r.get('vacuous', []):
                 rep.crashes.append('%s.%s: obligation %s was only reached '
@@ -527,6 +535,14 @@ def finish(rep, prop, tier, seed, t0, ob_rows, canary_rows, bounded_rows, kf,
                 {'id': r['id'], 'status': r['status'],
                  'queries': r['queries'], 'backend': r['backends'],
                  'solver_s': r['time_s']} for r in ob_rows],
+            'second_back_end': {
+                'what': 'thorough tier: the first z3-discharged query of '
+                'every obligation of every proof is also put to cvc5 '
+                '(10 s); unknown/timeouts are not counted against z3, a '
+                '`sat` is a checker error',
+                'cvc5_agrees_unsat': rep.cross.get('unsat', 0),
+                'cvc5_unknown_or_timeout': rep.cross.get('unknown', 0),
+                'cvc5_disagrees_sat': rep.cross.get('sat', 0)},
             'refuted_known': list(refuted_known),
             'canaries': canary_rows,
             'bounded_checks': {
